@@ -1,0 +1,18 @@
+//go:build verif
+
+package uhppote
+
+// VerifDriver exports the transport interface so that a verification harness can
+// wrap or replace the UDP/TCP driver of a client built with NewUHPPOTE.
+type VerifDriver = driver
+
+// VerifWrapDriver replaces the transport of u with wrap(current transport).
+// Returns false if u was not built by NewUHPPOTE.
+func VerifWrapDriver(u IUHPPOTE, wrap func(VerifDriver) VerifDriver) bool {
+	if v, ok := u.(*uhppote); ok && v != nil && wrap != nil {
+		v.driver = wrap(v.driver)
+		return true
+	}
+
+	return false
+}
